@@ -346,7 +346,7 @@ func runCase(c *core.Case) {
 				c.Unsure("editor login failed")
 				return
 			}
-			longName := strings.Repeat("N", 4100+c.R.Intn(3000))
+			longName := strings.Repeat("N", 4100+c.R.Intn(12000)) // the account file grows beyond 8 and 16 KiB
 			rep, ok := editor.Call(353, rc.F(110, next.bm), rc.FS(102, longName), rc.F(105, rc.Obfuscate([]byte(it.login))), rc.F(106, []byte{0}))
 			if !ok || rep.Err != 0 {
 				c.Fail("C16/edit/refused", "set-user for %s refused: %v", it.login, rep)
